@@ -72,6 +72,19 @@ func (l *Lexer) nextInsideToken() token.Token {
 		return tok
 	}
 
+	// a '#' comment runs to the end of the line; the token after it is the
+	// next one (a loop: any number of comment lines may follow each other)
+	for l.ch == '#' {
+		for l.ch != 0 {
+			l.readChar()
+			if l.ch == '\n' || l.ch == '\r' {
+				break
+			}
+		}
+		l.skipWhitespace()
+		line = l.curLine
+	}
+
 	switch l.ch {
 	case '=':
 		if l.peekChar() == '=' {
@@ -197,16 +210,6 @@ func (l *Lexer) nextInsideToken() token.Token {
 	case '`':
 		tok.Type = token.B_STRING
 		tok.Literal = l.readBString()
-	case '#':
-		for l.ch != 0 {
-			l.readChar()
-			if l.ch == '\n' || l.ch == '\r' {
-				break
-			}
-		}
-		// the token after the comment has been read completely: do not
-		// step over the character that follows it
-		return l.nextInsideToken()
 	case '[':
 		tok = l.newToken(token.LBRACKET)
 	case ']':
